@@ -215,3 +215,27 @@ def rw_nullable_allof_multi(rng, p: float):
         return s
     fn.count = count
     return fn
+
+
+def rw_typelist_member(rng, p: float):
+    """3.1 type list of one type and "null" -> the explicit union of the same members in the same order
+    (`type: ["null", T]` -> `oneOf: [{type: null}, {type: T, ...}]`), annotations kept on the union."""
+    count = [0]
+
+    def fn(s, pos):
+        t = s.get("type")
+        if not (isinstance(t, list) and len(t) == 2 and "null" in t and t[0] != t[1]) or "enum" in s or "const" in s or "$ref" in s or s.get("oneOf") or s.get("anyOf") or s.get("allOf") or pos in ("allof_member", "component") or "title" in s:
+            return s  # (a title names the inline class: which level it belongs to after the rewrite is not defined)
+        if rng.random() > p:
+            return s
+        other = next(x for x in t if x != "null")
+        if other == "object" and any(k in s for k in ANNOT):
+            return s  # annotations of an inline object are the generated class's own: which level they belong to after the rewrite is not defined
+        count[0] += 1
+        inner = {k: v for k, v in s.items() if k not in ANNOT and k != "type"}
+        inner["type"] = other
+        outer = {k: v for k, v in s.items() if k in ANNOT}
+        outer["oneOf"] = [{"type": "null"}, inner] if t[0] == "null" else [inner, {"type": "null"}]
+        return outer
+    fn.count = count
+    return fn
